@@ -37,6 +37,7 @@ var (
 // Scenario is one execution of a real entry point over a scripted environment.
 type Scenario struct {
 	ID        string `json:"id"`
+	Twin      string `json:"twin"`    // id of the noise-free twin scenario that ran directly before
 	Kind      string `json:"kind"`    // wire (default) | engine | multi | ...
 	Variant   string `json:"variant"` // icmp4 icmp6 udp4 udp6 tcp tcp_paris sack
 	Entry     string `json:"entry"`   // proto (default) | run | http
@@ -107,7 +108,7 @@ func TestScenarios(t *testing.T) {
 		if err := json.Unmarshal(line, &s); err != nil {
 			t.Fatalf("scenario %d: %v", n, err)
 		}
-		tw.write(s.ID, []wire.Event{{"event": "Begin", "n": 0, "t": 0, "idx": n}})
+		tw.write(s.ID, []wire.Event{{"event": "Begin", "n": 0, "t": 0, "idx": n, "twin": s.Twin}})
 		evs := runScenario(t, &s)
 		tw.write(s.ID, evs)
 	}
